@@ -3,6 +3,7 @@ package sim
 import (
 	"fmt"
 	"github.com/cespare/xxhash/v2"
+	"math"
 	"math/rand/v2"
 	"sort"
 	"strings"
@@ -201,6 +202,42 @@ func genJanitorRace(r *rand.Rand) *Scenario {
 	return sc
 }
 
+// genExpireAllOverlap: 2-6 clients call ExpireAll at about the same time on 2-6 entries (fresh for long, or without
+// expiry) that the root wrote before, and nothing else happens. Each call stamps what is still fresh with its own
+// start time and leaves what has expired alone, so whatever the interleaving every entry ends up with the start time
+// of the earliest call.
+func genExpireAllOverlap(r *rand.Rand) *Scenario {
+	sc := genBEBase(r, "conc")
+	be := sc.BE
+	be.OverlapExpire = true
+	sc.NoFastPath = true
+	be.Cfg = BEConfig{TTLNs: pick(r, int64(-1), 3600*sec), Jitter: -1, Strategy: r.IntN(3)}
+	be.Keys, be.Groups = genKeys(r, 2+r.IntN(5), 0)
+
+	for k := range be.Keys {
+		op := BEOp{Kind: "write", Key: k}
+		if chance(r, 0.5) {
+			op.HasTTL, op.TTLNs = true, pick(r, 3600*sec, 24*3600*sec)
+		}
+
+		be.Root = append(be.Root, op)
+	}
+
+	nc := 2 + r.IntN(5)
+	for c := 0; c < nc; c++ {
+		ops := []BEOp{{Kind: "expireAll"}}
+		if chance(r, 0.4) {
+			ops = []BEOp{{Kind: "sleep", SleepNs: int64(1+r.IntN(40)) * sc.TickNs}, {Kind: "expireAll"}}
+		}
+
+		be.Clients = append(be.Clients, ops)
+	}
+
+	sc.Sched = genSched(r, 300)
+
+	return sc
+}
+
 // genHotShard: one shard of a sharded map holds 70-100 entries, most of them expired long enough to be purged
 // by the next cleanup cycle (size thresholds of per-shard maintenance are reached); a Walk whose first callback
 // is slow lets a cycle and other clients' deletes and overwrites happen in the middle of its pass over that
@@ -263,6 +300,10 @@ func genC08(r *rand.Rand, run int, _ string) *Scenario {
 
 	if run%40 == 13 {
 		return genHotShard(r)
+	}
+
+	if run%40 == 27 || run%40 == 33 {
+		return genExpireAllOverlap(r)
 	}
 
 	sc := genBEBase(r, "conc")
@@ -378,6 +419,10 @@ func genC08(r *rand.Rand, run int, _ string) *Scenario {
 type cycleRec struct{ call, ret uint64 }
 
 func (r *beRun) oracleC08() {
+	if r.sc.OverlapExpire {
+		r.overlapExpireRule()
+	}
+
 	e := r.e
 	out := e.out
 	sc := r.sc
@@ -829,4 +874,69 @@ func (r *beRun) sameGroup(a, b string) bool {
 	m := refModel{r: r}
 
 	return m.sameGroup(a, b)
+}
+
+// overlapExpireRule is C08.R3: after overlapping ExpireAll calls (and nothing else) every entry carries the start
+// time of the earliest call: one instant for all, no earlier than the first invocation and no later than the first
+// return.
+func (r *beRun) overlapExpireRule() {
+	out := r.e.out
+
+	var minInv, minRet int64 = math.MaxInt64, math.MaxInt64
+
+	n := 0
+
+	for _, o := range r.recs {
+		if o.kind != "expireAll" || !o.done {
+			continue
+		}
+
+		n++
+
+		if o.invT < minInv {
+			minInv = o.invT
+		}
+
+		if o.retT < minRet {
+			minRet = o.retT
+		}
+	}
+
+	if n < 2 {
+		return
+	}
+
+	exp := map[string]int64{}
+
+	_, _ = r.bk.walk(func(key []byte, _ interface{}, at time.Time) error {
+		exp[string(key)] = at.UnixNano()
+
+		return nil
+	})
+
+	out.probe("overlapping_expire_all_judged")
+
+	distinct := map[int64]bool{}
+
+	for _, kb := range r.sc.Keys {
+		e, ok := exp[string(kb)]
+		if !ok {
+			out.violate("C08.R3", r.sc.Backend+" entry-lost-by-expire-all", "key %q is gone after %d overlapping ExpireAll calls (nothing else ran)", kb, n)
+
+			return
+		}
+
+		distinct[e] = true
+
+		if e < minInv || e > minRet {
+			out.violate("C08.R3", r.sc.Backend+" expiry-not-that-of-the-earliest-expire-all", "after %d overlapping ExpireAll calls key %q expires at %v; the earliest call was invoked at %v and the first one to return did so at %v: an entry keeps the expiry the first call gave it",
+				n, kb, time.Unix(0, e).UTC().Format("15:04:05.000000000"), time.Unix(0, minInv).UTC().Format("15:04:05.000000000"), time.Unix(0, minRet).UTC().Format("15:04:05.000000000"))
+
+			return
+		}
+	}
+
+	if len(distinct) > 1 {
+		out.violate("C08.R3", r.sc.Backend+" entries-expired-at-different-instants", "%d overlapping ExpireAll calls (and nothing else) left %d different expiry instants on %d entries: a later call moved the expiry of an entry that an earlier call had expired already", n, len(distinct), len(r.sc.Keys))
+	}
 }
